@@ -101,7 +101,7 @@ type ContractSet struct {
 }
 
 var reFunc = regexp.MustCompile(`^func\s+(?:\(([^)]*)\)\s*\.)?\s*([A-Za-z_][A-Za-z0-9_$]*)\s*(?:\(([^)]*)\))?\s*$`)
-var reLabel = regexp.MustCompile(`^(requires|ensures|lensures|invariant|decreases|assume)(?:\[([^\]]*)\])?\s*(?:(\d+)\s*:)?\s*(.*)$`)
+var reLabel = regexp.MustCompile(`^(requires|ensures|lensures|censures|invariant|decreases|assume)(?:\[([^\]]*)\])?\s*(?:(\d+)\s*:)?\s*(.*)$`)
 
 type rawLine struct {
 	text string
@@ -198,6 +198,10 @@ func parseContractSource(cs *ContractSet, file, src, pkgPath string) error {
 			cs.Axioms = append(cs.Axioms, ax)
 			lastAxiom = ax
 			cur = nil
+		case "ifacedefault":
+			// ifacedefault Iface : every method of the interface without its own contract gets the clauses that follow
+			cur = &Contract{PkgPath: pkgPath, Name: strings.TrimSpace(rest), Inv: map[int][]Clause{}, Dec: map[int]Clause{}, Flags: map[string]string{"ifacedefault": "yes"}, Absorbs: map[string]string{}, File: rl.file, Line: rl.line}
+			cs.Funcs = append(cs.Funcs, cur)
 		case "monotone":
 			cs.Monotone = append(cs.Monotone, strings.TrimSpace(rest))
 			cur = nil
@@ -279,7 +283,7 @@ func parseContractSource(cs *ContractSet, file, src, pkgPath string) error {
 					why = strings.TrimSpace(parts[1])
 				}
 				cur.Absorbs[strings.TrimSpace(parts[0])] = why
-			case "requires", "ensures", "lensures", "invariant", "decreases", "assume":
+			case "requires", "ensures", "lensures", "censures", "invariant", "decreases", "assume":
 				m := reLabel.FindStringSubmatch(t)
 				if m == nil {
 					return fmt.Errorf("%s:%d: bad clause", rl.file, rl.line)
@@ -292,7 +296,7 @@ func parseContractSource(cs *ContractSet, file, src, pkgPath string) error {
 				case "requires", "assume":
 					cur.Req = append(cur.Req, cl)
 					lastClause = &cur.Req[len(cur.Req)-1]
-				case "ensures", "lensures":
+				case "ensures", "lensures", "censures":
 					cur.Ens = append(cur.Ens, cl)
 					lastClause = &cur.Ens[len(cur.Ens)-1]
 				case "invariant":
